@@ -293,6 +293,7 @@ func c10Deep(x *X) {
 
 func runC10(x *X) {
 	runC10FromCallback(x)
+	runC10EditBetweenRenders(x)
 	runC10Overlapping(x)
 	c10Siblings(x)
 	c10Deep(x)
